@@ -1,0 +1,29 @@
+//go:build verif
+
+package protocol
+
+// Contracts checked by /verif (gvc). This file contains comments only and is compiled only with -tags verif.
+//
+// Property C16: when momentums are delivered by peers, a node leaves its current chain only for a delivered chain that is
+// strictly longer, links to one of the node's own momentums at most thirty heights below its frontier, and whose every
+// momentum and account block passes full verification in order; on a failure it stops and reports the index of the
+// failing momentum; re-delivering already known momentums changes nothing.
+
+//@ func chainBridge.InsertChain(c, momentums) -> (n, err)
+//@   safety
+//@   requires len(momentums) > 0
+//@   requires forall i int :: 0 <= i && i < len(momentums) ==> momentums[i] != nil && momentums[i].Momentum != nil
+//@   requires forall i int, j int :: 0 <= i && i < len(momentums) && 0 <= j && j < len(momentums[i].AccountBlocks) ==> momentums[i].AccountBlocks[j] != nil
+//@   at-call RollbackTo assert[links-to-own-momentum] target != nil && target.Hash == head.PreviousHash && target.Height == head.Height - 1
+//@   at-call RollbackTo assert[rollback-window] target.Height <= ourFrontier.Height && ourFrontier.Height - target.Height <= 30
+//@   at-call RollbackTo assert[strictly-longer] tail.Height > ourFrontier.Height
+//@   at-call AddMomentumTransaction assert[verified-this-momentum] transaction#2 != nil && transaction#2.verified && transaction#2.Momentum == detailed.Momentum
+//@   at-call ForceAddAccountBlockTransaction assert[verified-this-block] transaction != nil && transaction.verified && transaction.Block == block
+//@   ensures[index-in-range] 0 <= n && n <= len(momentums)
+//@   ensures[success-reports-zero] err == nil ==> n == 0
+//@   loop 1
+//@     invariant 0 <= start && start <= len(momentums)
+//@   loop 2
+//@     invariant 0 <= start && start < old(len(momentums)) && len(momentums) == old(len(momentums)) - start && momentums.arr == old(momentums.arr) && momentums.off == old(momentums.off) + start
+//@   loop 3
+//@     invariant 0 <= start && start < old(len(momentums)) && len(momentums) == old(len(momentums)) - start && momentums.arr == old(momentums.arr) && momentums.off == old(momentums.off) + start
